@@ -39,28 +39,31 @@ Theorem C15_bicgstab_junk_independent_Qc (A P : vec QcS -> vec QcS) prm f x0 (j1
 Proof. apply C15_bicgstab_junk_independent. reflexivity. Qed.
 Print Assumptions C15_bicgstab_junk_independent_Qc.
 
-(* GMRES / FGMRES.
-   FULL STATEMENT (unproved):
-     is_zero (@s0 S) = true ->
-     fst (gmres A P prm f x0 j1) = fst (gmres A P prm f x0 j2)      (same for fgmres)
-   where the junk comprises H, s, cs, sn, r, v[], z[].  The model reads H(k,j), cs[k], sn[k],
-   v[k] only for indices written earlier in the same restart cycle and s after std::fill; the
-   lock-step proof over the index maps is not done.  Tested: the extracted model is run from a
-   workspace filled with 17/3 against the implementation's zero-initialised members (C01/C05/C15
-   correspondence, exact), and one object vs fresh objects on the implementation (C15.py).
-   Proved here: the two exits that do not touch the workspace at all. *)
-Theorem C15_gmres_junk_independent_partial (S : Scalar) (A P : vec S -> vec S) prm f x0 (j1 j2 : gm_ws) nr :
-  (sltb (norm_b f) eps1 = true /\ p_ns prm = false) \/
-  (k_prologue norm_b prm f = Go nr /\
-   sltb (true_res norm_b A P (p_left prm) f x0) (smax (p_tol prm * nr) (p_abstol prm)) = true) ->
-  exists r, fst (gmres A P prm f x0 j1) = KOk r /\ fst (gmres A P prm f x0 j2) = KOk r /\ k_it r = 0.
-Proof.
-  intros [[H N] | [Hp Hc]].
-  - eexists. rewrite !gmres_zero_rhs by assumption. repeat split; reflexivity.
-  - unfold gmres. rewrite Hp. simpl. unfold true_res in Hc.
-    destruct (p_left prm); simpl; rewrite Hc; simpl; eexists; repeat split; reflexivity.
-Qed.
-Print Assumptions C15_gmres_junk_independent_partial.
+(* GMRES(M) / FGMRES(M): the junk comprises the Hessenberg array H, the rotated right-hand side s,
+   the rotations cs, sn, the scratch vector r and the bases v[], z[].  H(k,j), cs[k], sn[k], v[k],
+   z[k] are read only at indices written earlier in the same restart cycle and s after std::fill.
+   GMRES needs is_zero(zero) = true once: axpby(1/||r||, r, zero, v[0]) must overwrite v[0]. *)
+Theorem C15_gmres_junk_independent (S : Scalar) (A P : vec S -> vec S) prm f x0 (j1 j2 : gm_ws) :
+  is_zero (@s0 S) = true ->
+  fst (gmres A P prm f x0 j1) = fst (gmres A P prm f x0 j2).
+Proof. intro Hz. exact (gmres_junk_independent Hz A P prm f x0 j1 j2). Qed.
+Print Assumptions C15_gmres_junk_independent.
+
+Theorem C15_fgmres_junk_independent (S : Scalar) (A P : vec S -> vec S) prm f x0 (j1 j2 : gm_ws) :
+  fst (fgmres A P prm f x0 j1) = fst (fgmres A P prm f x0 j2).
+Proof. exact (fgmres_junk_independent A P prm f x0 j1 j2). Qed.
+Print Assumptions C15_fgmres_junk_independent.
+
+Theorem C15_gmres_junk_independent_Qc (A P : vec QcS -> vec QcS) prm f x0 (j1 j2 : gm_ws) :
+  fst (gmres A P prm f x0 j1) = fst (gmres A P prm f x0 j2).
+Proof. apply C15_gmres_junk_independent. reflexivity. Qed.
+Print Assumptions C15_gmres_junk_independent_Qc.
+
+(* reuse across different systems / parameters, as for CG *)
+Theorem C15_gmres_reuse (S : Scalar) (A1 P1 A2 P2 : vec S -> vec S) prm1 prm2 f1 x1 f2 x2 (fresh1 fresh2 : gm_ws) :
+  is_zero (@s0 S) = true ->
+  fst (gmres A2 P2 prm2 f2 x2 (snd (gmres A1 P1 prm1 f1 x1 fresh1))) = fst (gmres A2 P2 prm2 f2 x2 fresh2).
+Proof. intro Hz. exact (gmres_junk_independent Hz A2 P2 prm2 f2 x2 _ fresh2). Qed.
 
 (* ---- A2: zero right-hand side => zero iterations and x = 0 ---- *)
 Theorem C15_cg_zero_rhs (S : Scalar) (A P : vec S -> vec S) prm f x0 junk :
@@ -87,7 +90,7 @@ Print Assumptions C15_fgmres_zero_rhs.
 
 (* the zero vector really is what k_clear produces, and the exact zero right-hand side takes the exit *)
 Example C15_zero_rhs_instance :
-  fst (cg (fun v => v) (fun v => v) (mkPrm 5 (qc 1 10) (qc 0 1) false false 2 false (qc 1 1))
+  fst (cg (fun v => v) (fun v => v) (mkPrm 5 (qc 1 10) (qc 0 1) false false 2 false (qc 1 1) 0 true 2 (qc 0 1) true)
           [qc 0 1; qc 0 1] [qc 3 1; qc (-1) 2] (mkCgWs [] [] [] []))
   = KOk (mkRes 0 (qc 0 1) [qc 0 1; qc 0 1] false).
 Proof. vm_compute. reflexivity. Qed.
